@@ -4,3 +4,7 @@ pub open spec fn spec_microergs(h: nat) -> nat decreases h {
     if h == 0 { 1_000_000 } else { let l = spec_microergs((h - 1) as nat); if l + 1 >= l + l / 2_000_000 { l + 1 } else { l + l / 2_000_000 } }
 }
 pub proof fn lemma_microergs_pos(h: nat) ensures spec_microergs(h) >= 1_000_000 decreases h { if h > 0 { lemma_microergs_pos((h - 1) as nat); } }
+/// C09 envelope of the memo table: the inflator of height h fits in u128 (and h + 1 fits in usize)
+pub open spec fn microergs_fit(h: nat) -> bool { spec_microergs(h) <= u128::MAX && h < 0x7fff_ffff_ffff_ffff }
+pub proof fn lemma_microergs_mono(a: nat, b: nat) requires a <= b ensures spec_microergs(a) <= spec_microergs(b) decreases b - a { if a < b { lemma_microergs_mono(a, (b - 1) as nat); } }
+pub proof fn lemma_microergs_mono_all(b: nat) ensures forall|a: nat| a <= b ==> #[trigger] spec_microergs(a) <= spec_microergs(b) { assert forall|a: nat| a <= b implies #[trigger] spec_microergs(a) <= spec_microergs(b) by { lemma_microergs_mono(a, b); } }
